@@ -245,6 +245,11 @@ SWEEP = ["logging/test_async_file_appender.cpp",
 
 # name anchors (validated by tools/rename_sweep.py; a vanished name is exit 2, see core.check_anchor_names)
 ANCHORS = {
+    '_destinations': ['^babylon::AsyncFileAppender(<|$)'],
+    '_pages': ['^babylon::LogStreamBuffer(<|$)'],
+    '_pages_end': ['^babylon::LogStreamBuffer(<|$)'],
+    'entry': ['^babylon::AsyncFileAppender::Item(<|$)'],
     'overflow_page_table': ['^babylon::LogStreamBuffer(<|$)'],
+    'pages': ['^babylon::LogEntry(<|$)', '^babylon::LogEntry::PageTable(<|$)'],
     'pages_append_to_iovec': ['^babylon::LogEntry(<|$)'],
 }
